@@ -223,6 +223,10 @@ class CaseEval:
         raise Undecided("term `%s` is not an index polynomial" % show(t))
 
     def cmp(self, op, a, b):
+        if op in ("in", "notin") and is_const(a) and b[0] in ("list", "tup", "set", "dict"):
+            keys = [k for k, _ in b[1]] if b[0] == "dict" else list(b[1])
+            if all(is_const(k) for k in keys):
+                return (a in keys) == (op == "in")
         # non-numeric comparisons
         if is_const(a) and is_const(b) and not (isinstance(a[1], (int, float)) and isinstance(b[1], (int, float))):
             if op == "==":
@@ -330,6 +334,28 @@ class CaseEval:
             return (h, tuple(self.ev(x) for x in t[1]))
         if h == "cat":
             return simp(("cat", self.ev(t[1]), self.ev(t[2])))
+        if h == "dict":
+            return ("dict", tuple((self.ev(k), self.ev(v)) for k, v in t[1]))
+        if h == "mcall" and t[2] == "get" and 1 <= len(t[3]) <= 2 and not t[4]:
+            d, k = self.ev(t[1]), self.ev(t[3][0])
+            if d[0] == "dict" and is_const(k) and all(is_const(kk) for kk, _ in d[1]):
+                hits = [v for kk, v in d[1] if kk == k]
+                return hits[-1] if hits else (self.ev(t[3][1]) if len(t[3]) == 2 else C(None))
+            return t
+        if h == "compr" and t[1] in self.sx.loops:
+            # a comprehension over a sequence that is concrete in this case (a tuple of move names picked from a table)
+            from .symx import subst
+            L = self.sx.loops[t[1]]
+            src_v = self.ev(L.source)
+            if L.ckind in ("list", "gen") and src_v[0] in ("list", "tup") and not L.enumerated:
+                out = []
+                el = ("elem", L.id)
+                for x in src_v[1]:
+                    bind = lambda y, _x=x: _x if y == el else None
+                    if all(self.truth(subst(fl, bind)) for fl in (L.filters or [])):
+                        out.append(self.ev(subst(L.elt, bind)))
+                return ("list", tuple(out))
+            return t
         return t
 
 
@@ -418,7 +444,8 @@ class Game:
                     raise Undecided("%s: block %d is not `for i in range(length)` over a fresh list (source %s)" % (
                         self.func.short, len(self.blocks), show(Lo.source)))
                 Li = self.sx.loops[up[1]]
-                if Li.kind != "for" or Li.source != rng(self.W) or Li.has_break or Li.cont != FALSE or Li.init.get(v) != ("acc", Lo.id, v):
+                # a `continue` in the tile loop is fine: the per-tile update term covers the paths that skip the append
+                if Li.kind != "for" or Li.source != rng(self.W) or Li.has_break or Li.has_return or Li.init.get(v) != ("acc", Lo.id, v):
                     raise Undecided("%s: block %d inner loop is not `for j in range(width)` (source %s)" % (
                         self.func.short, len(self.blocks), show(Li.source)))
                 b = Block(len(self.blocks), leaf, Lo, Li, v)
@@ -430,6 +457,8 @@ class Game:
                 if b is None:
                     raise Undecided("%s: transition list part `%s` is a comprehension that is not a map over the tiles" % (self.func.short, show(leaf)[:80]))
                 self.blocks.append(b)
+            elif leaf[0] == "flatten" and leaf[1][0] == "compr" and self._nested_map_block(leaf) is not None:
+                self.blocks.append(self._nested_map_block(leaf))
             elif leaf[0] == "list":
                 self.tail.extend(leaf[1])
             else:
@@ -437,11 +466,20 @@ class Game:
 
     def _tile_enumeration(self, t):
         """(Lo, Li, per-tile element term) if t enumerates the tiles row by row: nested range(length) x range(width) collect."""
+        rng = lambda x: ("call", "range", (x,), ())
+        if t[0] == "flatten" and t[1][0] == "compr":
+            # ((i, j) for i in range(length) for j in range(width))
+            Lo = self.sx.loops[t[1][1]]
+            if Lo.filters or Lo.source != rng(self.L) or Lo.elt[0] != "compr" or Lo.ckind not in ("list", "gen"):
+                return None
+            Li = self.sx.loops[Lo.elt[1]]
+            if Li.filters or Li.source != rng(self.W) or Li.ckind not in ("list", "gen"):
+                return None
+            return Lo, Li, Li.elt
         if t[0] != "res" or t[1] not in self.sx.loops:
             return None
         Lo = self.sx.loops[t[1]]
         v = t[2]
-        rng = lambda x: ("call", "range", (x,), ())
         up = Lo.update.get(v)
         if Lo.kind != "for" or Lo.source != rng(self.L) or up is None or up[0] != "res" or Lo.has_break or Lo.cont != FALSE or Lo.init.get(v) != ("list", ()):
             return None
@@ -453,6 +491,19 @@ class Game:
         if u is None or u[0] != "cat" or u[1] != acc or u[2][0] != "list" or len(u[2][1]) != 1:
             return None
         return Lo, Li, u[2][1][0]
+
+    def _nested_map_block(self, leaf):
+        """[E(i, j) for i in range(length) for j in range(width)]: one entry per tile, row by row."""
+        rng = lambda x: ("call", "range", (x,), ())
+        Lo = self.sx.loops[leaf[1][1]]
+        if Lo.filters or Lo.ckind not in ("list", "gen") or Lo.source != rng(self.L) or Lo.elt[0] != "compr":
+            return None
+        Li = self.sx.loops[Lo.elt[1]]
+        if Li.filters or Li.ckind not in ("list", "gen") or Li.source != rng(self.W):
+            return None
+        b = Block(len(self.blocks), leaf, Lo, Li, None, elt=Li.elt)
+        b.builder = _enclosing_function(self.ctx, Li.node)
+        return b
 
     def _mapped_block(self, leaf):
         from .symx import subst
